@@ -71,8 +71,8 @@ CHECKS = {
             "TLC enumerates integer gradient tensors and alpha (AdvUpdate.tla: orthogonality law, zero-gradient law, states where a row-pair reading would differ); each state's gradients are forced into the real PytorchEngine.train_step through linear losses (backend= subclass overriding get_loss) and the SGD parameter change compared with the exact rational update; real networks checked against autograd-recomputed updates",
             "forced cases: every predictor tensor entry equals -lr * g of the specification (2e-5) and the adversary follows the plain gradient; real networks (0-2 hidden layers, widths 1-6, binary/multiclass/continuous targets and sensitive features, demographic parity and equalized odds, fresh initialisation): every predictor and adversary tensor after one step equals the documented update computed from autograd gradients on a deep copy",
             "PyTorch engine only (tensorflow is not installed in this sandbox); float32 tolerance 2e-5", "5/C16"),
-    "C17": (["AdvSchedule.tla", "AdvTrace.tla", "AdvPredict.tla"],
-            "TLC model-checks the step schedule machine for every bounded configuration (AdvSchedule.tla) and emits its behaviours; each behaviour is replayed into the real estimator (recording PytorchEngine subclass + recording callbacks) and followed by the equivalent partial_fit sequence; larger recorded executions are validated by TLC against AdvTrace.tla; AdvPredict.tla fixes the label-space mapping, replayed with forced raw outputs",
+    "C17": (["AdvSchedule.tla", "AdvScheduleInd.tla", "AdvTrace.tla", "AdvPredict.tla"],
+            "TLC model-checks the step schedule machine for every bounded configuration (AdvSchedule.tla) and emits its behaviours; Apalache proves the schedule invariant (step count, callback count, slice laws) inductive for unbounded n / batch size / epochs / max_iter (AdvScheduleInd.tla; the mapped invariant IndMapped is also checked by TLC); each behaviour is replayed into the real estimator (recording PytorchEngine subclass + recording callbacks) and followed by the equivalent partial_fit sequence; larger recorded executions are validated by TLC against AdvTrace.tla; AdvPredict.tla fixes the label-space mapping, replayed with forced raw outputs",
             "event sequence (slice bounds, step numbers, callback numbers per callback, stop) and n_iter_ equal the specification's for every configuration incl. batch_size -1 / not dividing n, epochs -1, max_iter, 1-2 callbacks; parameters after fit are torch.equal to those after partial_fit on the same slices; predict returns the positive class iff raw >= 1/2, the first arg-max class, the raw value, for 7 binary and 3 multiclass label encodings",
             "PyTorch backend only; shuffle=False as the property states", "5/C17"),
     "C18": (["Bootstrap.tla", "BootTrace.tla"],
